@@ -386,3 +386,60 @@ func (p *Program) onlyWrittenInInit(g *ssa.Global) bool {
 	}
 	return true
 }
+
+// checkSingleWriter: every call of (*sync/atomic.Value).Store whose receiver is the field Type.field
+// sits in function writer of package pkg, and writer's contract has an ensures clause labelled label.
+func (p *Program) checkSingleWriter(pkg, writer, field, label string) string {
+	fc := p.cs.Funcs[pkg+"."+writer]
+	if fc == nil {
+		return "no contract for " + writer
+	}
+	found := false
+	for _, e := range fc.Ensures {
+		if e.Label == label {
+			found = true
+		}
+	}
+	if !found {
+		return writer + " has no ensures clause @" + label
+	}
+	i := strings.LastIndex(field, ".")
+	if i < 0 {
+		return "field must be Type.field"
+	}
+	tname, fname := field[:i], field[i+1:]
+	for fn := range ssautil.AllFunctions(p.ssa) {
+		for _, b := range fn.Blocks {
+			for _, ins := range b.Instrs {
+				var addr ssa.Value
+				switch x := ins.(type) {
+				case ssa.CallInstruction:
+					c := x.Common()
+					if sc := c.StaticCallee(); sc != nil && strings.HasSuffix(sc.String(), "atomic.Value).Store") && len(c.Args) > 0 {
+						addr = c.Args[0]
+					}
+				}
+				fa, ok := addr.(*ssa.FieldAddr)
+				if !ok {
+					continue
+				}
+				st := fa.X.Type().Underlying().(*types.Pointer).Elem()
+				named, ok := st.(*types.Named)
+				if !ok || named.Obj().Name() != tname || named.Obj().Pkg() == nil || named.Obj().Pkg().Path() != pkg {
+					continue
+				}
+				if st.Underlying().(*types.Struct).Field(fa.Field).Name() != fname {
+					continue
+				}
+				root := fn
+				for root.Parent() != nil {
+					root = root.Parent()
+				}
+				if root.Pkg == nil || root.Pkg.Pkg.Path() != pkg || funcRelName(fn) != writer {
+					return "also written in " + fn.String()
+				}
+			}
+		}
+	}
+	return ""
+}
